@@ -45,6 +45,8 @@ pub struct SimKey {
     pub spec: KeySpec,
     pub alg: Alg,
     pub pkcs8: Vec<u8>,
+    /// the legacy encoding of the same key: PKCS#1 RSAPrivateKey or SEC1 ECPrivateKey (none for Ed25519)
+    pub legacy: Option<Vec<u8>>,
     /// raw public key in the format rcgen's `public_key_raw` documents
     pub raw_pub: Vec<u8>,
     /// SubjectPublicKeyInfo assembled by hand from the algid table and raw_pub
@@ -125,7 +127,14 @@ impl SimKey {
             ec.public_key().to_bytes(ec.group(), PointConversionForm::UNCOMPRESSED, &mut ctx).unwrap()
         };
         let spki = make_spki(alg, &raw_pub);
-        SimKey { spec: spec.clone(), alg, pkcs8, raw_pub, spki, pkey }
+        let legacy = if alg.is_rsa() {
+            Some(pkey.rsa().unwrap().private_key_to_der().unwrap())
+        } else if alg.is_ecdsa() {
+            Some(pkey.ec_key().unwrap().private_key_to_der().unwrap())
+        } else {
+            None
+        };
+        SimKey { spec: spec.clone(), alg, pkcs8, legacy, raw_pub, spki, pkey }
     }
 
     /// Signature as the algorithm's X.509 signatureValue (ECDSA: DER Ecdsa-Sig-Value).
@@ -199,6 +208,28 @@ pub enum Loader {
     DerAlgo,
     Pkcs8PemAlgo,
     PemAlgo,
+    // legacy encodings (PKCS#1 / SEC1), accepted by the aws-lc-rs back end only
+    LegacyDerAlgo,
+    LegacyDerAuto,
+    LegacySliceAuto,
+    LegacyPemAlgo,
+    LegacyPemAuto,
+}
+
+impl Loader {
+    pub fn is_auto(self) -> bool {
+        matches!(
+            self,
+            Loader::SliceAuto
+                | Loader::VecAuto
+                | Loader::Pkcs8Auto
+                | Loader::PrivateKeyDerAuto
+                | Loader::PemAuto
+                | Loader::LegacyDerAuto
+                | Loader::LegacySliceAuto
+                | Loader::LegacyPemAuto
+        )
+    }
 }
 
 pub fn loaders_for(alg: Alg) -> Vec<Loader> {
@@ -211,6 +242,17 @@ pub fn loaders_for(alg: Alg) -> Vec<Loader> {
         v.extend_from_slice(&[Loader::SliceAuto, Loader::VecAuto, Loader::Pkcs8Auto, Loader::PrivateKeyDerAuto]);
         #[cfg(feature = "pem")]
         v.push(Loader::PemAuto);
+    }
+    #[cfg(feature = "aws_lc_rs")]
+    if alg != Alg::Ed25519 {
+        v.push(Loader::LegacyDerAlgo);
+        #[cfg(feature = "pem")]
+        v.push(Loader::LegacyPemAlgo);
+        if !matches!(alg, Alg::RsaSha384 | Alg::RsaSha512) {
+            v.extend_from_slice(&[Loader::LegacyDerAuto, Loader::LegacySliceAuto]);
+            #[cfg(feature = "pem")]
+            v.push(Loader::LegacyPemAuto);
+        }
     }
     v
 }
@@ -236,6 +278,32 @@ pub fn load_local(key: &SimKey, how: Loader) -> Result<rcgen::KeyPair, rcgen::Er
         #[cfg(feature = "pem")]
         Loader::PemAlgo => rcgen::KeyPair::from_pem_and_sign_algo(&simcore::pem_encode("PRIVATE KEY", der), alg),
         #[cfg(not(feature = "pem"))]
-        Loader::PemAuto | Loader::Pkcs8PemAlgo | Loader::PemAlgo => panic!("PEM loader on a build without pem"),
+        Loader::PemAuto | Loader::Pkcs8PemAlgo | Loader::PemAlgo | Loader::LegacyPemAlgo | Loader::LegacyPemAuto => {
+            panic!("PEM loader on a build without pem")
+        }
+        Loader::LegacyDerAlgo | Loader::LegacyDerAuto | Loader::LegacySliceAuto => {
+            let legacy = key.legacy.as_deref().expect("legacy encoding");
+            let pkd = if key.alg.is_rsa() {
+                PrivateKeyDer::Pkcs1(pki_types::PrivatePkcs1KeyDer::from(legacy))
+            } else {
+                PrivateKeyDer::Sec1(pki_types::PrivateSec1KeyDer::from(legacy))
+            };
+            match how {
+                Loader::LegacyDerAlgo => rcgen::KeyPair::from_der_and_sign_algo(&pkd, alg),
+                Loader::LegacyDerAuto => rcgen::KeyPair::try_from(&pkd),
+                _ => rcgen::KeyPair::try_from(legacy),
+            }
+        }
+        #[cfg(feature = "pem")]
+        Loader::LegacyPemAlgo | Loader::LegacyPemAuto => {
+            let legacy = key.legacy.as_deref().expect("legacy encoding");
+            let label = if key.alg.is_rsa() { "RSA PRIVATE KEY" } else { "EC PRIVATE KEY" };
+            let text = simcore::pem_encode(label, legacy);
+            if how == Loader::LegacyPemAlgo {
+                rcgen::KeyPair::from_pem_and_sign_algo(&text, alg)
+            } else {
+                rcgen::KeyPair::from_pem(&text)
+            }
+        }
     }
 }
